@@ -1,7 +1,7 @@
 (* C08 — proofs about the composed system of Conc/TlsDuplex.v: two pumps over the ideal record layer joined by a
    fragmenting, delaying network.  pump_transparent (both directions, all interleavings), lock mutual exclusion. *)
 From Coq Require Import ZArith List Bool Lia ZifyBool.
-From EN Require Import Lib.Bytes Conc.TlsBase Conc.TlsPump Conc.IdealTls Conc.TlsDuplex Proofs.C08_proofs Proofs.C09_proofs.
+From EN Require Import Lib.Bytes Conc.TlsBase Conc.TlsPump Conc.IdealTls Conc.TlsDuplex Proofs.C08_proofs Proofs.Ideal_proofs.
 
 (* ------------------------------------------------------------------ facts about one pump step *)
 
